@@ -38,9 +38,9 @@ def plan(pid, tier):
     if pid == "C09":
         return [hx_leg("SA", props=["C09"], **(dict(L=3, D=8) if q else dict(L=5, D=10))), hx_leg("SB", props=["C09"], **(dict(D=6) if q else dict(D=8)))]
     if pid == "C10":
-        return [hx_leg("SF", props=["C10", "C01", "C02", "C04", "C06", "C09", "C12"]), hx_leg("SE", props=["C10", "C01", "C04", "C12"])]
+        return [hx_leg("SF", props=["C10", "C01", "C02", "C04", "C06", "C09", "C12"]), hx_leg("SE", props=["C10", "C01", "C04", "C12"])] + ([] if q else [hx_leg("LIMIT", depth=2)])
     if pid == "C12":
-        return [hx_leg("SA", props=["C12"]), hx_leg("SB", props=["C12"])]
+        return [hx_leg("SA", props=["C12"]), hx_leg("SB", props=["C12"]), hx_leg("LIMIT", depth=2 if q else 4)]
     if pid == "C13":
         return [hx_leg("SD", props=["C13", "C01", "C02", "C06", "C09", "C12"], **(dict(L=2, D=7) if q else dict(L=3, D=8)))]
     if pid == "C17":
